@@ -620,11 +620,27 @@ func (c *diskCache) loadExistingFiles(maxSizeBytes int64, cc CacheConfig) error 
 	// file next to a new one). Only the most recently accessed one that
 	// fits is a candidate: remove the others up front, so that they don't
 	// push other entries out of the cache before being replaced.
+	//
+	// A compressed CAS blob that was still being written when the server
+	// was killed has an unfinished header. Such a file must not displace a
+	// complete older file of the same blob, so it is never a candidate
+	// when there are several files for the key.
+	numFiles := make(map[string]int, len(result.item))
+	for i := 0; i < len(result.item); i++ {
+		numFiles[result.metadata[i].lookupKey]++
+	}
+
 	newest := make(map[string]int, len(result.item))
 	for i := 0; i < len(result.item); i++ {
-		if roundUp4k(result.item[i].sizeOnDisk) <= maxSizeBytes {
-			newest[result.metadata[i].lookupKey] = i
+		key := result.metadata[i].lookupKey
+		if roundUp4k(result.item[i].sizeOnDisk) > maxSizeBytes {
+			continue
 		}
+		if numFiles[key] > 1 && strings.HasPrefix(key, "cas/") && !result.item[i].legacy &&
+			!casblob.HasValidHeader(c.getElementPath(key, *result.item[i])) {
+			continue
+		}
+		newest[key] = i
 	}
 
 	for i := 0; i < len(result.item); i++ {
